@@ -391,7 +391,11 @@ def d4_layouts(ctx):
     vals = sorted(unparse(s.value) for s in tc)
     want = sorted(['asascii[1 + 2 * tmax * placesBI.index(corr):1 + 2 * tmax * placesBI.index(corr) + 2 * tmax]',
                    'asascii[1 + 2 * tmax * len(placesBI) + 2 * placesBB.index(corr):1 + 2 * tmax * len(placesBI) + 2 * placesBB.index(corr) + 2]'])
-    ctx.check(rule, key + '-slices', vals == want, 'correlator k starts at 1 + 2 tmax k (after the configuration number), boundary-to-boundary ones after all time dependent ones', 'slices %s' % vals)
+    oks = vals == want
+    if not oks:
+        # bounds held in locals (computed once per file, per branch): resolved per branch of `corr not in placesBB` and compared as values
+        oks = _xsf_slices_by_value(m, f, tc)
+    ctx.check(rule, key + '-slices', bool(oks), 'correlator k starts at 1 + 2 tmax k (after the configuration number), boundary-to-boundary ones after all time dependent ones', 'slices %s' % vals)
     t = unparse(f)
     # the statements that distribute one record (tmpcorr) over realsamples / imagsamples are plain list code: they are evaluated on a
     # record of distinct tokens (lengths 2, 4, 6) and must put entry 2t into realsamples[rep][t] and entry 2t+1 into imagsamples[rep][t]
@@ -561,6 +565,86 @@ def d7_relabelling(ctx):
         ctx.check(rule, key + '-offset', len(off) == 1 and unparse(off[0].value) == 'configlist[-1][0] - 1', 'offset = first number - 1', 'offset = %s' % [unparse(o.value) for o in off])
 
 
+def _xsf_slices_by_value(m, f, tc):
+    """every `tmpcorr = asascii[lo:hi]` resolved through locals that are bound once per branch of the test `corr (not) in placesBB`:
+    time dependent branch lo = 1 + 2 tmax k_BI, hi = lo + 2 tmax; boundary branch lo = 1 + 2 tmax n_BI + 2 k_BB, hi = lo + 2."""
+    import sympy as sp
+    tmax, kbi, kbb, nbi = sp.symbols('tmax kBI kBB nBI', integer=True, nonnegative=True)
+
+    def polarity(node):
+        for t_, pol in guards_of(m, node, stop=f):
+            u = unparse(t_)
+            if u == 'corr not in placesBB':
+                return 'BI' if pol else 'BB'
+            if u == 'corr in placesBB':
+                return 'BB' if pol else 'BI'
+        return None
+    defs = {}
+    for s_ in statements(f):
+        if isinstance(s_, ast.Assign) and len(s_.targets) == 1 and isinstance(s_.targets[0], ast.Name):
+            defs.setdefault(s_.targets[0].id, []).append((polarity(s_), s_.value))
+
+    def tr(e, br, depth=0):
+        if depth > 6:
+            raise Unrecognised('depth')
+        if isinstance(e, ast.Constant) and isinstance(e.value, int):
+            return sp.Integer(e.value)
+        if isinstance(e, ast.Name):
+            if e.id == 'tmax':
+                return tmax
+            cands = [v for p_, v in defs.get(e.id, []) if p_ in (br, None)]
+            if len(cands) == 1:
+                return tr(cands[0], br, depth + 1)
+            raise Unrecognised('name %s' % e.id)
+        if isinstance(e, ast.Call) and unparse(e) == 'placesBI.index(corr)':
+            return kbi
+        if isinstance(e, ast.Call) and unparse(e) == 'placesBB.index(corr)':
+            return kbb
+        if isinstance(e, ast.Call) and unparse(e) == 'len(placesBI)':
+            return nbi
+        if isinstance(e, ast.BinOp) and isinstance(e.op, (ast.Add, ast.Sub, ast.Mult)):
+            a, b = tr(e.left, br, depth), tr(e.right, br, depth)
+            return a + b if isinstance(e.op, ast.Add) else (a - b if isinstance(e.op, ast.Sub) else a * b)
+        raise Unrecognised(unparse(e))
+    want = {'BI': (1 + 2 * tmax * kbi, 1 + 2 * tmax * kbi + 2 * tmax), 'BB': (1 + 2 * tmax * nbi + 2 * kbb, 1 + 2 * tmax * nbi + 2 * kbb + 2)}
+    seen = set()
+    try:
+        for s_ in tc:
+            v = s_.value
+            if not (isinstance(v, ast.Subscript) and unparse(v.value) == 'asascii' and isinstance(v.slice, ast.Slice) and v.slice.lower is not None and v.slice.upper is not None and v.slice.step is None):
+                return False
+            brs = [polarity(s_)] if polarity(s_) else ['BI', 'BB']
+            for br in brs:
+                lo, hi = tr(v.slice.lower, br), tr(v.slice.upper, br)
+                if sp.simplify(lo - want[br][0]) != 0 or sp.simplify(hi - want[br][1]) != 0:
+                    return False
+                seen.add(br)
+    except Unrecognised:
+        return False
+    return seen == {'BI', 'BB'}
+
+
+def d8_rwms_factor_layout(ctx, m, rule='C17-D4'):
+    """openQCD 1.4 / 1.6 reweighting files store, per factor, the sqn block followed by the lnr block (each nsrc doubles): the reader takes
+    the second block of every factor.  A read that spans several factors has to keep that order: shape (nfct, 2, nsrc), entry [:, 1]."""
+    f = m.func('read_rwms')
+    n = 0
+    for c in walk(f):
+        if isinstance(c, ast.Call) and isinstance(c.func, ast.Attribute) and c.func.attr == 'reshape' and len(c.args) >= 3 and any('nfct' in unparse(a) for a in c.args) \
+                and any('nsrc' in unparse(a) for a in c.args):
+            n += 1
+            shp = [unparse(a) for a in c.args]
+            par = m.parents.get(c)
+            sel = unparse(par.slice) if isinstance(par, ast.Subscript) and par.value is c else None
+            ok = len(shp) == 3 and 'nfct' in shp[0] and shp[1] == '2' and 'nsrc' in shp[2] and sel in (':, 1', ':, 1, :', '(slice(None), 1)')
+            ctx.check(rule, 'input/openQCD.py:read_rwms#factor-layout[%s]' % ', '.join(shp)[:40], ok, 'block of all factors read as (factor, sqn|lnr, source), lnr selected',
+                      'the block of all factors is interpreted as shape (%s) with selection [%s]: the file stores sqn and lnr interleaved per factor, i.e. (nfct, 2, nsrc) and [:, 1]' % (', '.join(shp), sel), m.loc(c))
+    per_factor = [lp for lp in walk(f) if isinstance(lp, ast.For) and 'nfct' in unparse(lp.iter)]
+    reads = [c for lp in per_factor for c in walk(lp) if isinstance(c, ast.Call) and isinstance(c.func, ast.Attribute) and c.func.attr == 'read' and 'nsrc' in unparse(c)]
+    ctx.check(rule, 'input/openQCD.py:read_rwms#factor-blocks', n > 0 or len(reads) == 2, 'two blocks of nsrc doubles are read per factor (sqn skipped, lnr used)',
+              'the per-factor loop reads %d blocks of nsrc doubles and no whole-record layout is declared' % len(reads), m.loc(f))
+
+
 def d7_timeslice_window(ctx, m, rule='C17-D4'):
     """flowed energy density: the average runs over the timeslices xmin <= x0 < tmax - xmin of every block of tmax entries: every slice
     whose bounds mention xmin and tmax has the extent tmax - 2 xmin (exclusive upper bound), whatever the offset of the block"""
@@ -606,6 +690,7 @@ def run(ctx):
     ctx.guarded('C17-D3', 'readers@selection', d3_selection, ctx)
     ctx.guarded('C17-D4', 'readers@layouts', d4_layouts, ctx)
     ctx.guarded('C17-D4', 'openQCD@timeslice-window', d7_timeslice_window, ctx, ctx.repo.mod('input.openQCD'))
+    ctx.guarded('C17-D4', 'openQCD@rwms-factor-layout', d8_rwms_factor_layout, ctx, ctx.repo.mod('input.openQCD'))
     ctx.guarded('C17-D5', 'readers@derivation', d5_derivation, ctx)
     ctx.guarded('C17-D1', 'sfcf@pairing', d6_sfcf_pairing, ctx)
     ctx.guarded('C17-D5', 'openQCD@relabelling', d7_relabelling, ctx)
